@@ -122,8 +122,11 @@ def h_verify(m, ctx, nlines, menu_name, fixed=None, pre_out_len=None, trailing=T
 
 # ----------------------------------------------------------------------------- C07 clean
 
-def h_clean(m, ctx, nlines, menu_name, fixed=None, history='build-clean', le_choices=(b'\n',), pre_temp_len=None):
+def h_clean(m, ctx, nlines, menu_name, fixed=None, history='build-clean', le_choices=(b'\n',), pre_temp_len=None, dir_at_temp=False):
     source, desc, se, _, hand_written, data = world(m, ctx, nlines, menu_name, fixed, None, pre_temp_len, le_choices=le_choices)
+    if dir_at_temp:
+        hand_written = 'DIR'
+        data['pre_temp'] = 'DIR'
     data = dict(data, history=history, extra_files=[(p.decode(), list(c)) for p, c in DECOYS])
     steps = {'build-clean': ['Build', 'Clean'], 'clean': ['Clean'], 'build-clean-clean': ['Build', 'Clean', 'Clean']}[history]
     pre_out = None
@@ -149,11 +152,14 @@ def h_clean(m, ctx, nlines, menu_name, fixed=None, history='build-clean', le_cho
                 # after a successful build (or no build): every generated file is gone
                 if env.read_file(OUT) is not None:
                     violation(ctx, 'clean left the output file behind', d)
-                if env.read_file(TMP) is not None and (hand_written is None or printable(TMP) in allowed_paths(ctx, 'Clean', source, se)):
+                if env.read_file(TMP) is not None and (hand_written is None or (not dir_at_temp and printable(TMP) in allowed_paths(ctx, 'Clean', source, se))):
                     # a temp directive that was reached by the build
                     violation(ctx, 'clean left a temp file behind', d)
             allowed_c = allowed_paths(ctx, 'Clean', source, se)
-            if hand_written is not None and printable(TMP) not in allowed_c and printable(TMP) not in allowed_paths(ctx, 'Build', source, se):
+            if dir_at_temp:
+                if bytes(env.read_file(TMP + b'/keep') or b'') != b'keep':
+                    violation(ctx, 'clean removed or changed the directory that sits at a temp target', d)
+            elif hand_written is not None and printable(TMP) not in allowed_c and printable(TMP) not in allowed_paths(ctx, 'Build', source, se):
                 cur = env.read_file(TMP)
                 if cur is None:
                     violation(ctx, 'clean deleted t.tmp, which no valid temp directive of the source names', d)
@@ -167,7 +173,7 @@ def h_clean(m, ctx, nlines, menu_name, fixed=None, history='build-clean', le_cho
                 if c is not None and bytes(b for b in cur if isinstance(b, int)) != c:
                     violation(ctx, 'clean changed %s' % p.decode(), d)
             ctx.cover('clean_after_' + ('build_ok' if build_ok else 'build_failed' if build_ok is False else 'nothing'))
-        pre_out, pre_temp = env.read_file(OUT), env.read_file(TMP)
+        pre_out, pre_temp = env.read_file(OUT), ('DIR' if dir_at_temp else env.read_file(TMP))
 
 
 # ----------------------------------------------------------------------------- C08 hermetic / C09 needed
@@ -326,7 +332,7 @@ def replay_fs(v, steps, judge):
     spec, env = ppreplay.spec_concrete(d, model, True)
     detail = {'source': repr(ppreplay.conc(d['source'], model)), 'included f': repr(ppreplay.conc(d['inc'], model)),
               'pre_out': repr(ppreplay.conc(d['pre_out'], model)) if d.get('pre_out') is not None else None,
-              'pre_temp': repr(ppreplay.conc(d['pre_temp'], model)) if d.get('pre_temp') is not None else None,
+              'pre_temp': (d['pre_temp'] if d.get('pre_temp') == 'DIR' else repr(ppreplay.conc(d['pre_temp'], model))) if d.get('pre_temp') is not None else None,
               'commands': [(c, repr(ppreplay.conc(o, model))) for c, o in d.get('cmd_results', [])],
               'runs': [{'rc': r['rc'], 'output': repr(r['output']), 'temp': repr(r['temp']), 'listing': r['listing']} for r in res],
               'spec_ok': spec.ok, 'spec_output': repr(bytes(spec.output))}
